@@ -395,6 +395,20 @@ def c08(tier, replay):
                                             "exhaustive": smp == 1, "placements_enumerated": r["distinct"]}
     for t_ in terms:
         sessions.append([{"do": "send", "line": "position fen " + t_[1]}, {"do": "go", "line": rng.choice(clocks)}, {"do": "isready"}])
+    # ... and finished games in which the side to move still has a man besides its king (pinned / blocked / unable to help)
+    smp2 = 40 if q else 2
+    r2 = vcommon.tlc("Fam", "Fam_terminal.cfg", env={"FAMILY": "terminal2", "SAMPLE": str(smp2), "OFFSET": str(vcommon.seed() % smp2)},
+                     workers=vcommon.NCPU, xmx="8g", timeout=3000)
+    if not r2["ok"]:
+        raise ToolError("terminal2 family enumeration failed:\n" + r2["out"][-1500:])
+    terms2 = vcommon.tlc_prints(r2["out"], "TERM")
+    if len(terms2) < 20:
+        raise ToolError("coverage hole: terminal2 family too small (%d)" % len(terms2))
+    run.add("states", r2["distinct"])
+    run.add("transitions", r2["states"])
+    run.cov["terminal_family_with_a_man_left"] = {"finished_games": len(terms2), "checkmates": sum(1 for t_ in terms2 if t_[2]), "sample": "1/%d" % smp2}
+    for t_ in terms2:
+        sessions.append([{"do": "send", "line": "position fen " + t_[1]}, {"do": "go", "line": rng.choice(clocks)}, {"do": "isready"}])
     plan(h, sessions)
     logs = run_sessions(binary, sessions, 4)
     sample_session(run, sessions[0], logs[0])
